@@ -63,7 +63,7 @@ func c13RegistryFirst(p *Prog, r *Report) {
 			continue
 		}
 		info := fi.Pkg.TypesInfo
-		f := p.FlatOf(fi)
+		f := p.FlatInl(fi)
 		usesTx := len(f.CallNodes("internal/model.GetTxId")) > 0
 		if !usesTx {
 			continue
@@ -86,7 +86,7 @@ func c13RegistryFirst(p *Prog, r *Report) {
 					continue
 				}
 				inner, ok := ast.Unparen(sel.X).(*ast.SelectorExpr)
-				if !ok || objOf(info, inner.X) != recv {
+				if !ok || f.CanonObj(objOf(info, inner.X)) != recv {
 					continue
 				}
 				if p.callIs(fi.Pkg, c, kTxRepoGet) {
